@@ -19,57 +19,57 @@ import (
 )
 
 var nativeTable = map[string]interface{}{
-	"strings.ToUpper":     strings.ToUpper,
-	"strings.ToLower":     strings.ToLower,
-	"strings.TrimPrefix":  strings.TrimPrefix,
-	"strings.TrimSuffix":  strings.TrimSuffix,
-	"strings.HasPrefix":   strings.HasPrefix,
-	"strings.HasSuffix":   strings.HasSuffix,
-	"strings.Split":       strings.Split,
-	"strings.Join":        strings.Join,
-	"strings.Index":       strings.Index,
-	"strings.LastIndex":   strings.LastIndex,
-	"strings.Contains":    strings.Contains,
-	"strings.EqualFold":   strings.EqualFold,
-	"strings.TrimSpace":   strings.TrimSpace,
-	"strings.Repeat":      strings.Repeat,
-	"strings.ReplaceAll":  strings.ReplaceAll,
-	"strings.TrimRight":   strings.TrimRight,
-	"strings.TrimLeft":    strings.TrimLeft,
-	"strings.Trim":        strings.Trim,
-	"strings.Count":       strings.Count,
-	"strings.Fields":      strings.Fields,
-	"path/filepath.Clean":     filepath.Clean,
-	"path/filepath.Join":      filepath.Join,
-	"path/filepath.Split":     filepath.Split,
-	"path/filepath.Ext":       filepath.Ext,
-	"path/filepath.Base":      filepath.Base,
-	"path/filepath.Dir":       filepath.Dir,
-	"path/filepath.Rel":       filepath.Rel,
-	"path/filepath.FromSlash": filepath.FromSlash,
-	"path/filepath.ToSlash":   filepath.ToSlash,
-	"path/filepath.IsAbs":     filepath.IsAbs,
-	"path/filepath.VolumeName": filepath.VolumeName,
-	"path.Clean":          path.Clean,
-	"path.Join":           path.Join,
-	"path.Base":           path.Base,
-	"path.Dir":            path.Dir,
-	"path.Ext":            path.Ext,
-	"strconv.Itoa":        strconv.Itoa,
-	"strconv.Atoi":        strconv.Atoi,
-	"strconv.Quote":       strconv.Quote,
-	"net.ParseIP":         net.ParseIP,
-	"unicode.ToUpper":     unicode.ToUpper,
-	"unicode.ToLower":     unicode.ToLower,
-	"unicode.IsUpper":     unicode.IsUpper,
-	"unicode.IsLower":     unicode.IsLower,
-	"unicode.IsLetter":    unicode.IsLetter,
-	"unicode.IsDigit":     unicode.IsDigit,
-	"unicode.IsSpace":     unicode.IsSpace,
-	"unicode/utf8.RuneLen":        utf8.RuneLen,
-	"unicode/utf8.ValidString":    utf8.ValidString,
+	"strings.ToUpper":                strings.ToUpper,
+	"strings.ToLower":                strings.ToLower,
+	"strings.TrimPrefix":             strings.TrimPrefix,
+	"strings.TrimSuffix":             strings.TrimSuffix,
+	"strings.HasPrefix":              strings.HasPrefix,
+	"strings.HasSuffix":              strings.HasSuffix,
+	"strings.Split":                  strings.Split,
+	"strings.Join":                   strings.Join,
+	"strings.Index":                  strings.Index,
+	"strings.LastIndex":              strings.LastIndex,
+	"strings.Contains":               strings.Contains,
+	"strings.EqualFold":              strings.EqualFold,
+	"strings.TrimSpace":              strings.TrimSpace,
+	"strings.Repeat":                 strings.Repeat,
+	"strings.ReplaceAll":             strings.ReplaceAll,
+	"strings.TrimRight":              strings.TrimRight,
+	"strings.TrimLeft":               strings.TrimLeft,
+	"strings.Trim":                   strings.Trim,
+	"strings.Count":                  strings.Count,
+	"strings.Fields":                 strings.Fields,
+	"path/filepath.Clean":            filepath.Clean,
+	"path/filepath.Join":             filepath.Join,
+	"path/filepath.Split":            filepath.Split,
+	"path/filepath.Ext":              filepath.Ext,
+	"path/filepath.Base":             filepath.Base,
+	"path/filepath.Dir":              filepath.Dir,
+	"path/filepath.Rel":              filepath.Rel,
+	"path/filepath.FromSlash":        filepath.FromSlash,
+	"path/filepath.ToSlash":          filepath.ToSlash,
+	"path/filepath.IsAbs":            filepath.IsAbs,
+	"path/filepath.VolumeName":       filepath.VolumeName,
+	"path.Clean":                     path.Clean,
+	"path.Join":                      path.Join,
+	"path.Base":                      path.Base,
+	"path.Dir":                       path.Dir,
+	"path.Ext":                       path.Ext,
+	"strconv.Itoa":                   strconv.Itoa,
+	"strconv.Atoi":                   strconv.Atoi,
+	"strconv.Quote":                  strconv.Quote,
+	"net.ParseIP":                    net.ParseIP,
+	"unicode.ToUpper":                unicode.ToUpper,
+	"unicode.ToLower":                unicode.ToLower,
+	"unicode.IsUpper":                unicode.IsUpper,
+	"unicode.IsLower":                unicode.IsLower,
+	"unicode.IsLetter":               unicode.IsLetter,
+	"unicode.IsDigit":                unicode.IsDigit,
+	"unicode.IsSpace":                unicode.IsSpace,
+	"unicode/utf8.RuneLen":           utf8.RuneLen,
+	"unicode/utf8.ValidString":       utf8.ValidString,
 	"unicode/utf8.RuneCountInString": utf8.RuneCountInString,
-	"fmt.Sprintf":         fmt.Sprintf,
+	"fmt.Sprintf":                    fmt.Sprintf,
 }
 
 type natResult struct{ v Value }
